@@ -452,8 +452,12 @@ def run(chk):
     jobs = [("MC_MetricsQuery.cfg" if quick else "MC_MetricsQuery_deep.cfg", 1500, not quick),
             ("MC_MetricsQuery_X.cfg", 900, False),
             ("MC_MetricsQuery_Lq.cfg" if quick else "MC_MetricsQuery_L.cfg", 1200, False),
-            ("MC_MetricsQuery_noreg.cfg", 600, False)]
-    r, rx, rl, r2 = vlib.pmap(lambda j: vlib.run_tlc("MC_MetricsQuery", j[0], workers=mw, timeout=j[1], coverage=j[2]), jobs, workers=4)
+            ("MC_MetricsQuery_noreg.cfg", 600, False),
+            ("MC_MetricsQuery_R.cfg", 900, False)]
+    r, rx, rl, r2, rr = vlib.pmap(lambda j: vlib.run_tlc("MC_MetricsQuery", j[0], workers=mw, timeout=j[1], coverage=j[2]), jobs, workers=len(jobs))
+    vlib.tlc_must_hold(rr, "MetricsQuery exhaustive (regular-expression forms)")
+    chk.add_tlc("MC_MetricsQuery_R", rr, "SelectExact (negated matcher = complement) and the other invariants on universe R: anchors, escape classes, "
+                "escaped dot, counted repetition, character class, empty pattern, each as =~ and !~")
     vlib.tlc_must_hold(r, "MetricsQuery exhaustive")
     chk.add_tlc("MC_MetricsQuery", r, "TypeOK NoLossNoDup TagsCover LayoutInvariance(Sel) AvgIsSumOverCount MinLeAvgLeMax ByAllIsIdentity "
                 "WithoutIsByComplement SelectExact BinaryMatchesLabelSets; universe H, NT=%d, MaxOps=%d" % ((2, 2) if quick else (2, 3)))
@@ -477,15 +481,20 @@ def run_binding(chk, quick):
             ("Gen_MetricsQuery_scenD.cfg", modD, 20),
             ("Gen_MetricsQuery_layout.cfg" if quick else "Gen_MetricsQuery_layout_deep.cfg", 1, 20),
             # long-series family: few series, 12 (thorough: also 20) samples each, histories that split them at every point
-            ("Gen_MetricsQuery_scenL.cfg", 11 if quick else 3, 20), ("Gen_MetricsQuery_layoutL.cfg", 1, 20 if quick else 4)]
+            ("Gen_MetricsQuery_scenL.cfg", 11 if quick else 3, 20), ("Gen_MetricsQuery_layoutL.cfg", 1, 20 if quick else 4),
+            # universe R: regular-expression forms beyond alternation / dot-star (anchors, \\d \\w, \\., {n}, [..], empty)
+            ("Gen_MetricsQuery_scenR.cfg", 5 if quick else 1, 20)]
     if not quick:
         gens += [("Gen_MetricsQuery_scenL20.cfg", 7, 20), ("Gen_MetricsQuery_layoutL20.cfg", 1, 40)]
     out = vlib.pmap(lambda g: tlc_generate_pick(g[0], chk.seed, g[1], modl=g[2]), gens, workers=len(gens))
-    (scenH, gh), (scenX, gx), (scenS, gs), (scenD, gd), (lays, gl), (scenL, gL), (laysL, glL) = out[:7]
+    (scenH, gh), (scenX, gx), (scenS, gs), (scenD, gd), (lays, gl), (scenL, gL), (laysL, glL), (scenR, gR) = out[:8]
+    chk.add_tlc("Gen_MetricsQuery_scenR", gR, "scenario generation, regular-expression universe (%d)" % len(scenR))
+    if not scenR:
+        raise vlib.Infra("no scenarios generated for universe R")
     chk.add_tlc("Gen_MetricsQuery_scenL", gL, "scenario generation, long series NT=12 (%d)" % len(scenL))
     chk.add_tlc("Gen_MetricsQuery_layoutL", glL, "layout histories for 12 samples per series (%d after the seed filter)" % len(laysL))
     if not quick:
-        (scenL20, gL20), (laysL20, glL20) = out[7:9]
+        (scenL20, gL20), (laysL20, glL20) = out[8:10]
         chk.add_tlc("Gen_MetricsQuery_scenL20", gL20, "scenario generation, long series NT=20 (%d)" % len(scenL20))
         chk.add_tlc("Gen_MetricsQuery_layoutL20", glL20, "layout histories for 20 samples per series (%d after the seed filter)" % len(laysL20))
         scenL, laysL = scenL + scenL20, laysL + laysL20
@@ -501,7 +510,7 @@ def run_binding(chk, quick):
         raise vlib.Infra("no behaviours generated (H=%d X=%d S=%d layouts=%d)" % (len(scenH), len(scenX), len(scenS), len(lays)))
 
     rnd = random.Random(chk.seed)
-    nH, nX, nS, nD, nL = (18, 6, 4, 3, 14) if quick else (260, 40, 20, 12, 120)
+    nH, nX, nS, nD, nL, nR = (18, 6, 4, 3, 14, 5) if quick else (260, 40, 20, 12, 120, 40)
     lay_by_n = {}
     for l in lays:
         lay_by_n.setdefault((l["n"], l["nt"]), []).append(l)
@@ -520,7 +529,7 @@ def run_binding(chk, quick):
     cases = []
     idx = 0
     for univ, scens, n, nsub in (("H", scenH, nH, 48 if quick else 120), ("X", scenX, nX, 40), ("S", scenS, nS, 40),
-                                  ("D", scenD, nD, 40), ("L", scenL, nL, 64)):
+                                  ("D", scenD, nD, 40), ("L", scenL, nL, 64), ("R", scenR, nR, 110)):
         scens = sorted(scens, key=lambda s: json.dumps(s["idx"]) + s["grid"])
         chosen = vlib.sample(scens, n, chk.seed * 31 + len(univ))
         if len(chosen) < n:
@@ -556,7 +565,7 @@ def run_binding(chk, quick):
                 "layout": [a["a"] if a["a"] != "ingest" else "i%d@%d" % (a["i"], a["t"]) for a in c0["hist"]],
                 "queries": [{"promql": q["text"], "expect_t0": q["expect"][0]} for q in c0["scen"]["queries"][:4]]})
     chk.cov["queries_run"] = nq
-    chk.cov["cases"] = {"H": nH, "X": nX, "S": nS, "D": nD, "L": nL}
+    chk.cov["cases"] = {"H": nH, "X": nX, "S": nS, "D": nD, "L": nL, "R": nR}
     chk.assumptions += [
         "every sample lies on the step grid and every series has exactly one sample per evaluation timestamp that is compared "
         "(timestamps whose ingest round is incomplete at a stage are not compared): lookback/staleness never decides an answer",
